@@ -12,7 +12,7 @@
 (***************************************************************************)
 EXTENDS Sweep, Stages, Json
 
-CONSTANTS Family,       \* "tri" | "pair" | "pairB" | "nest" | "nest2" | "star3" | "quad"
+CONSTANTS Family,       \* "tri" | "pair" | "pairB" | "nest" | "nest2" | "isl2" | "star3" | "quad"
           N, L,         \* lattice 0..N scaled by L
           Stride, Offset,   \* sub-sampling of the family (Stride = 1: everything)
           REPLAY        \* print REPLAY lines
@@ -54,6 +54,10 @@ Sel3(a, a2, b) == Stride = 1 \/ ((H(a) * 31 + H(a2) * 17 + H(b)) % Stride) = Off
 FrLo == 0 - L
 FrHi == (N + 1) * L
 Frame == << << << <<FrLo, FrLo>>, <<FrHi, FrLo>>, <<FrHi, FrHi>>, <<FrLo, FrHi>>, <<FrLo, FrLo>> >> >> >>
+Fr2Lo == 0 - 2 * L
+Fr2Hi == (N + 2) * L
+Annulus == << << <<<<Fr2Lo, Fr2Lo>>, <<Fr2Hi, Fr2Lo>>, <<Fr2Hi, Fr2Hi>>, <<Fr2Lo, Fr2Hi>>, <<Fr2Lo, Fr2Lo>>>>,
+                 <<<<FrLo, FrLo>>, <<FrLo, FrHi>>, <<FrHi, FrHi>>, <<FrHi, FrLo>>, <<FrLo, FrLo>>>> >> >>
 Ops == {"int", "union", "diff", "xor"}
 \* three triangles through one common least vertex (six left events in one point), unordered
 TKey(t) == ((t[2][1] \div L) * (N + 1) + (t[2][2] \div L)) * (N + 1) * (N + 1) + (t[3][1] \div L) * (N + 1) + (t[3][2] \div L)
@@ -82,6 +86,9 @@ Init ==
                                 \E o \in Ops : \/ SInit(TriMp(a) \o TriMp(a2) \o TriMp(a3), TriMp(b), o)
                                                 \/ SInit(TriMp(b), TriMp(a) \o TriMp(a2) \o TriMp(a3), o)
                                                 \/ SInit(FrameHoles(a, a2, a3), TriMp(b), o)
+       [] Family = "isl2" -> \E b \in Tris : \E b2 \in Tris :      \* two parts inside the HOLE of an annulus: islands in a hole, stacked or side by side
+                                Lex(b[1], b2[1]) /\ Sel2(b, b2) /\ Compatible(b, b2)
+                                /\ \E o \in Ops : (SInit(Annulus, TriMp(b) \o TriMp(b2), o) \/ SInit(TriMp(b) \o TriMp(b2), Annulus, o))
        [] Family = "quad" -> \E a \in Quads : \E b \in Tris : Sel2(a, b) /\ \E o \in Ops : SInit(QuadMp(a), TriMp(b), o)
 
 Next == SNext /\ labs' = Append(labs, lab')
